@@ -30,4 +30,11 @@ pub trait DirectLDLSolver<T: FloatT>: DirectLDLSolverReqs<T> + HasLinearSolverIn
     fn verif_c08_permuted_copy(&self) -> Option<(Vec<T>, Vec<usize>)> {
         None
     }
+
+    /// verification hook (whole-solver correspondence): the fill-reducing ordering `perm`
+    /// the engine factorises with; `None` for engines that do not expose one.
+    #[cfg(feature = "verif-hooks")]
+    fn verif_ldl_perm(&self) -> Option<Vec<usize>> {
+        None
+    }
 }
